@@ -2026,6 +2026,13 @@ func NewData(uuid dvid.UUID, id dvid.InstanceID, name dvid.InstanceName, c dvid.
 	data.MaxDownresLevel = downresLevels
 
 	data.Initialize()
+
+	// Store the (zero) repo-wide max label now so loadLabelIDs finds it at the next start.
+	// Without the key, an instance that has not stored or allocated a label yet would come
+	// back with the veryLargeLabel fallback meant for damaged stores.
+	if err := data.persistMaxRepoLabel(); err != nil {
+		return nil, err
+	}
 	return data, nil
 }
 
